@@ -136,6 +136,8 @@ def analyse(F, s, classes):
 def _is_wrap(t, c, pf):
     pc, pp = ("pre", "self." + c), ("pre", "self." + pf)
     inc = ("+", pc, cu(1))
+    if t == ("%", inc, pp):
+        return True  # (c + 1) % period: the other wrap idiom
     if not (isinstance(t, tuple) and t[0] == "gamma"):
         return False
     a, pol = lit(("<", inc, pp))
